@@ -893,4 +893,55 @@ theorem path_packed_addresses (H : Hash) (t : Ty) (v : Val) (n : Node) (keys : L
   · rw [getter_concatStep n hg0ne (keyToStaticGindex_ne_zero _ _ _ hg'), hm]
     exact hget
 
+/-! ## 6. keys of the TYPE that are not keys of the VALUE; non-vacuity
+
+The static index depends on the type only: for a list with limit 4 holding one element, the keys
+`1 … 3` are accepted by `navigate_type` / `key_to_static_gindex` (and by the SSZ
+`get_generalized_index`) although the value has no such element; `subVal` is `none` there, and
+nothing is claimed about the node: in the constructor tree, index `1` finds the zero chunk (not a
+representation of the element type) and index `2` runs into a zero summary (NavigationError). -/
+
+section Examples
+variable (H : Hash)
+
+private def tEx : Ty := .container [.uint 8, .list (.container [.uint 1, .uint 1]) 4]
+private def vEx : Val := .seq [.num 7, .seq [.seq [.num 1, .num 2]]]
+private def tPk : Ty := .container [.uint 8, .list (.uint 2) 100]
+private def vPk : Val := .seq [.num 7, .seq ((List.range 40).map .num)]
+
+example : tEx.wf = true ∧ limitsOk tEx = true ∧ WT tEx vEx = true := by decide
+
+/-- a path valid for the value: field 1, element 0, field 1 -/
+example : subValPath (some tEx) vEx [.idx 1, .idx 0, .idx 1] = some (some (.uint 1), .num 2) := rfl
+example : Impl.pathGindex tEx [.idx 1, .idx 0, .idx 1] = some 49 := by decide
+
+/-- the hypotheses of `path_addresses` are satisfiable: the constructor tree of `vEx` -/
+example : ∃ n m, Impl.construct H tEx vEx = some n ∧ getter n 49 = some m ∧
+    m.root H = Spec.htr H (.uint 1) (.num 2) := by
+  obtain ⟨n, hc, hr⟩ := repr_exists H tEx vEx (by decide) (by decide)
+  obtain ⟨g, m, hg, hm, _, hroot⟩ :=
+    path_addresses H tEx vEx n [.idx 1, .idx 0, .idx 1] (.uint 1) (.num 2) hr (by decide)
+      (by decide) rfl
+  have : g = 49 := by
+    have h49 : Impl.pathGindex tEx [.idx 1, .idx 0, .idx 1] = some 49 := by decide
+    rw [h49] at hg; exact (Option.some.inj hg).symm
+  subst this
+  exact ⟨n, m, hc, hm, hroot⟩
+
+/-- keys beyond the current length but below the limit: static index defined, no sub-value -/
+example : Impl.pathGindex tEx [.idx 1, .idx 1] = some 25 ∧ Impl.pathGindex tEx [.idx 1, .idx 2] = some 26
+    ∧ Impl.pathGindex tEx [.idx 1, .idx 4] = none := by decide
+example : subValPath (some tEx) vEx [.idx 1, .idx 1] = none ∧
+    subValPath (some tEx) vEx [.idx 1, .idx 2] = none := ⟨rfl, rfl⟩
+example : (Impl.construct H tEx vEx).bind (fun n => getter n 25) = some (zeroNode H 0) := rfl
+example : (Impl.construct H tEx vEx).bind (fun n => getter n 26) = none := rfl
+
+/-- a packed position at the end of a path: element 37 of a `List[uint16, 100]` lives in chunk 2 -/
+example : subValPath (some tPk) vPk [.idx 1] = some (some (.list (.uint 2) 100), .seq ((List.range 40).map .num)) := rfl
+example : Impl.pathGindex tPk [.idx 1, .idx 37] = some 50 := by decide
+example : subVal (.list (.uint 2) 100) (.seq ((List.range 40).map .num)) (.idx 37)
+    = some (some (.uint 2), .num 37) := rfl
+
+end Examples
+
 end Rmk.PathAddress
